@@ -914,7 +914,10 @@ func (vm *VM) throwGenErr(err error) error {
 		if e.fileSet == nil {
 			e.fileSet = vm.bytecode.FileSet
 		}
-		return vm.throw(e, true)
+		// the error comes from a callable implemented in Go (for instance one
+		// that invoked a compiled function), the calling statement of the
+		// current function belongs to the stack trace as well.
+		return vm.throw(e, false)
 	} else if e, ok := err.(*Error); ok {
 		return vm.throw(vm.newError(e), false)
 	}
